@@ -263,6 +263,8 @@ def mk(prior):
                     except Exception as ex:     # noqa
                         rac.fail(f"failed-load exc {pi} {gi} {pos} {ow}", f"C03 after {prior} and a failed load({dump}, overwrite={ow}): {type(ex).__name__}: {ex}",
                                  PRELUDE + FL + body + IDX_TAIL, "Manager.load")
+    from rac import sametext
+    sametext.run(rac, "C03")
     rac.section("random", "random histories of length 6..16 (seeded; every other one with definitions that read a nested container as a whole "
                 "and containers replaced by value), same checks", "150 quick / 3000 thorough", exhaustive=False)
     for _k in range(150 if quick else 3000):
